@@ -571,6 +571,39 @@ def reach_map(body):
             if isinstance(v, (dict, list)):
                 ex(v, ctx)
     st(body, ())
+    # a named condition (`const bool take_copy = a && b; if (!take_copy) {..} else {..}`) contributes the literals of the
+    # condition it names, like the condition written in place
+    bl, written = {}, set()
+
+    def bv(n):
+        if n.get("k") == "Decl":
+            for v in n.get("vars", []):
+                if "d" in v and v.get("init") is not None and (v.get("t") or "").replace("const ", "") == "bool":
+                    bl[v["d"]] = v["init"]
+        elif n.get("k") == "Assign" and isinstance(strip(n.get("l")), dict) and strip(n["l"]).get("k") == "Ref":
+            written.add(strip(n["l"]).get("d"))
+    walk(body, bv)
+    bl = {d: e for d, e in bl.items() if d not in written}
+    if bl:
+        memo = {}
+
+        def expand_lit(lit, origin, depth=0):
+            l0 = strip(lit)
+            if isinstance(l0, dict) and l0.get("k") == "Ref" and l0.get("d") in bl and depth < 3:
+                return tuple(x for l2 in literals(bl[l0["d"]]) for x in expand_lit(l2, origin, depth + 1))
+            if isinstance(l0, dict) and l0.get("k") == "Un" and l0.get("op") == "!" and isinstance(strip(l0.get("e")), dict) and strip(l0["e"]).get("k") == "Ref" \
+                    and strip(l0["e"]).get("d") in bl and depth < 3:
+                return tuple(x for l2 in negate(bl[strip(l0["e"])["d"]]) for x in expand_lit(l2, origin, depth + 1))
+            return ((lit, origin),)
+
+        def expand(ctx):
+            k2 = id(ctx)
+            if k2 not in memo:
+                memo[k2] = (ctx, tuple(x for lit, origin in ctx for x in expand_lit(lit, origin)))
+            return memo[k2][1]
+        for nid in list(m):
+            if m[nid]:
+                m[nid] = expand(m[nid])
     _REACH[key] = (body, m)
     return m
 
